@@ -245,3 +245,12 @@ Proof.
   intros s oid rest s' Hp Hs. cbn [step] in Hs. rewrite Hp in Hs. cbn [kind_eqb andb] in Hs.
   destruct (working s =? 0) eqn:E; [apply Nat.eqb_eq in E; exact E | discriminate].
 Qed.
+
+(* "with its id": the packet manager orders by arrival, not by the id the peer chose. Whatever id each request carries - the
+   assignment need not be injective: a peer may reuse an id while an earlier request with the same id is still in flight -
+   the ids on the wire are the ids of requests 1..k in arrival order. *)
+Theorem emitted_ids_any_assignment : forall (A : Type) (rid : nat -> A) tr s, run init tr = Some s ->
+  map rid (emitted s) = map rid (seq 1 (length (emitted s))).
+Proof.
+  intros A rid tr s H. f_equal. exact (proj1 (emitted_prefix tr s H)).
+Qed.
